@@ -249,8 +249,18 @@ def judge(ctx: Ctx, job, res):
                 ctx.violation(f"rest:docutils-crash:{du['crash']}", f"docutils raises {du['crash']} on the generated document {s['str'][:160]!r}", dict(replay, tree=s["tree"], docutils=du))
             else:
                 ctx.count("docutils", "rendered:" + ("clean" if not du["messages"] else f"level-{max(m[0] for m in du['messages'])}"))
-                if du["messages"]:
-                    ctx.violation(f"rest:docutils-message:{du['messages'][0][1]}", f"docutils reports {du['messages'][:2]} on the generated document {s['str'][:160]!r}", dict(replay, tree=s["tree"], docutils=du))
+                errors = [m for m in du["messages"] if m[0] >= 3]
+                for m in du["messages"]:
+                    if m[0] == 2:
+                        # "rendering without ERRORS": docutils' WARNING level is recorded, not judged
+                        ctx.count("docutils_warning", m[1])
+                        notes = ctx.coverage.setdefault("notes", [])
+                        if len(notes) < 10:
+                            notes.append(f"docutils WARNING {m[1]!r} on {s['str'][:80]!r}")
+                if errors:
+                    ctx.violation("rest:docutils-error:" + "_".join(errors[0][1].split()), f"docutils reports {errors[:2]} on the generated document {s['str'][:160]!r}", dict(replay, tree=s["tree"], docutils=du))
+                elif du["messages"]:
+                    pass  # warnings only: the structural comparisons below assume a clean rendering
                 elif du["headings"] != du["titles_in_tree"]:
                     ctx.violation("rest:docutils-headings-differ", f"{du['titles_in_tree']} section titles were rendered to {du['headings']} headings: {s['str'][:160]!r}", dict(replay, tree=s["tree"], docutils=du))
                 elif du["enumerations_in_tree"] > du["enumerated_lists"]:
